@@ -15,7 +15,8 @@ from framework import LineCheck
 
 class C14(LineCheck):
     pid = "C14"
-    coq_targets = []          # filled in once the MT models are in _CoqProject (see Properties_C14.v imports)
+    coq_targets = ["theories/MT/ConflictEvent.vo", "theories/MT/ConflictSignal.vo", "theories/MT/ConflictWait.vo",
+                   "theories/MT/ConflictWork.vo", "theories/Core/OneWayFlags.vo"]
     corr_name = "ThreadSanitizer observation of free-running multi-threaded scenario programs on the real library"
     trusted = [
         "the theorem is about model variables and model steps (lock discipline of the MT transition systems), not bytes: "
